@@ -7,6 +7,10 @@ CHECKS = {
         technique="TLA+ grammar (printer) vs code-shaped TLA+ parser model-checked by TLC; TLC-generated lines replayed into try_parse/iter; real try_parse calls on corpus lines validated by TLC trace spec",
         text="TLC enumerates every record AST of the documented grammar over small alphabets (all optional-part combinations, 5 terminators, 9 documented malformations), checks the code-shaped TLA+ parser against the declarative printer/denotation, and every enumerated line is replayed into the real parser; corpus and mutated lines are validated in the other direction.",
         design="4 C05", note="Bounded alphabets; corpus lines constrained only when the TLA+ printer reproduces them; trusted: TLC, Json module, harness encoder (canary-checked)."),
+    "C06": dict(
+        technique="stream laws (declarative TLA+) model-checked on the code-shaped TLA+ parser for all strings within bounds; the same strings plus fuzzed/corpus inputs run through the real iterator and the recorded item streams validated by TLC against the laws",
+        text="TLC enumerates every byte string (<=5 quick / <=6 thorough over 9 delimiter symbols) and every token string (<=4 / <=5 over 14 tokens incl. the sourceFile prefix), checks item count, no-terminator-in-field and the resynchronisation law at every LF split on the specification's parser; every string up to the emit bound and seeded byte soups, mutated files and corpus files are fed to the real iterator whose recorded item streams must satisfy the same TLA+ laws.",
+        design="4 C06", note="L4 read on Ok records and non-blank error lines; bounded exhaustive + sampled; trusted: TLC, harness event recorder (canary-checked)."),
 }
 
 NOT_YET = {}
